@@ -329,17 +329,21 @@ def run(ctx):
         return
 
     # ---- op lines
+    recorded = []
     if getattr(ctx, "replay", None):
-        rp = json.load(open(ctx.replay))
-        lines = [f["replay"]["line"] for f in rp.get("failures", []) if isinstance(f.get("replay"), dict) and "line" in f["replay"]]
-        lines += [d["line"] for d in rp.get("disagreements", []) if "line" in d]
-        enum_info, rhist, nfree = {}, {}, 0
-    else:
-        lines, enum_info = enum_lines(ctx, drv, ENUM_THOROUGH if thorough else ENUM_QUICK, 400000)
-        rl, rhist = random_lines(ctx, 20000 if thorough else 1500)
-        fl = free_lines(ctx, 400 if thorough else 40)
-        nfree = len(fl)
-        lines += rl + fl + MALFORMED
+        # replay: the recorded failing lines first, then the normal run with the recorded seed / tier
+        try:
+            rp = json.load(open(ctx.replay))
+            recorded = [f["replay"]["line"] for f in rp.get("failures", [])
+                        if isinstance(f.get("replay"), dict) and "line" in f["replay"]]
+            recorded += [d["line"] for d in rp.get("disagreements", []) if "line" in d]
+        except (OSError, ValueError, KeyError, TypeError):
+            recorded = []
+    lines, enum_info = enum_lines(ctx, drv, ENUM_THOROUGH if thorough else ENUM_QUICK, 400000)
+    rl, rhist = random_lines(ctx, 20000 if thorough else 1500)
+    fl = free_lines(ctx, 400 if thorough else 40)
+    nfree = len(fl)
+    lines = recorded + lines + rl + fl + MALFORMED
     ctx.extra["enumerated"] = enum_info
     ctx.extra["exhaustive_small_scope"] = ("every complete schedule with at most the stated number of preemptions (the running "
                                            "thread is switched out only when blocked / spinning / done, except at the counted "
